@@ -866,3 +866,22 @@ pub fn hash_order_observed(m: &std::collections::HashMap<u16, u16>) -> u16 {
     }
     first
 }
+
+// a guard whose operands are known under other names on the first trip round the loop (the relation must survive the join)
+pub fn good_guard_alias(total: u16, reps: &[u8]) -> u32 {
+    let mut left = u32::from(total);
+    let mut i = 0;
+    while left > 0 {
+        let r = if i < reps.len() {
+            u32::from(reps[i]) + 1
+        } else {
+            1
+        };
+        if r > left {
+            return 0;
+        }
+        left -= r;
+        i += 1;
+    }
+    left
+}
